@@ -261,7 +261,12 @@ def graphs_under_test(ck):
             ly = gd.brute_layers(cap=800)
             if ly is None or len(ly) < 3 or max(map(abs, gd.central)) > 100 or (gd.kind == "mat" and gd.modulo == 0):
                 continue
-            out.append((gd, graphs.gen_cfg(ck.rng, gd), "generated-" + gd.tag))
+            cfg = graphs.gen_cfg(ck.rng, gd)
+            if cfg.get("random_seed") is None:
+                # every cell builds a FRESH graph: without a seed their hash orders differ and equally short paths,
+                # thinned walks, pruned beams legitimately differ between cells (false alarm seen in the thorough tier)
+                cfg["random_seed"] = ck.rng.choice([0, 1, 7, 123456789])
+            out.append((gd, cfg, "generated-" + gd.tag))
     return out
 
 
